@@ -3,11 +3,14 @@
 use crate::ConcurrencyAlgorithm;
 use std::future::Future;
 use std::pin::Pin;
+#[cfg(not(feature = "verif-hooks"))]
 use std::sync::atomic::{AtomicUsize, Ordering};
 use std::sync::Arc;
 use std::task::{Context, Poll};
 use std::time::Instant;
 use tokio::sync::Semaphore;
+#[cfg(feature = "verif-hooks")]
+use tower_resilience_core::verif::atomic::{AtomicUsize, Ordering};
 use tower_service::Service;
 
 /// A service that applies adaptive concurrency limiting.
